@@ -474,7 +474,8 @@ class The(ResultQuantifier[T]):
     def evaluate(self) -> TypingUnion[Iterable[T], T, UnificationDict]:
         self._reset_cache_()
         try:
-            result = self._evaluate_()
+            with symbolic_mode(mode=None):
+                result = self._evaluate_()
             return self._process_result_(result)
         finally:
             self._reset_cache_()
